@@ -69,6 +69,12 @@ fn setup(s: &J) -> Result<(Setup, J), csl::JsError> {
         wd.insert(&csl::RewardAddress::new(0, &csl::Credential::from_keyhash(&mk::keyhash(150))), &csl::BigNum::from(w * unit));
         tb.set_withdrawals(&wd);
     } }
+    // deposits the transaction pays (stake registrations at the configured key deposit): part of what the inputs have to cover
+    if let Some(d) = s.get("dep").and_then(|x| x.as_u64()) { if d > 0 {
+        let mut certs = csl::Certificates::new();
+        for i in 0..d { certs.add(&csl::Certificate::new_stake_registration(&csl::StakeRegistration::new(&csl::Credential::from_keyhash(&mk::keyhash(160 + i as u8))))); }
+        tb.set_certs(&certs)?;
+    } }
     let mut offered = csl::TransactionUnspentOutputs::new();
     let mut offered_pts = vec![];
     for (i, v) in s["utxos"].as_array().unwrap_or(&empty).iter().enumerate() {
@@ -272,7 +278,7 @@ fn gen(rng: &mut Rng) -> J {
     // sometimes a withdrawal already covers (part of) the lovelace need, so that only assets - or nothing - remain to be selected
     let wd = if rng.chance(1, 4) { 1 + rng.below(12) } else { 0 };
     json!({"strat": strat, "mode": "explore", "unit": unit, "a": *rng.pick(&[44u64, 44, 0, 500]), "b": 155381, "cpb": 0,
-           "utxos": utxos, "outs": outs, "pre": pre, "wd": wd, "mf": if rng.chance(1, 5) { 1 + rng.below(9000) } else { 0 }, "distinct_addrs": rng.chance(1, 3), "max_leaves": 1500})
+           "utxos": utxos, "outs": outs, "pre": pre, "wd": wd, "dep": if rng.chance(1, 4) { 1 + rng.below(2) } else { 0 }, "mf": if rng.chance(1, 5) { 1 + rng.below(9000) } else { 0 }, "distinct_addrs": rng.chance(1, 3), "max_leaves": 1500})
 }
 
 pub fn main(a: &Args) {
